@@ -934,6 +934,10 @@ def k3_packages(ctx):
     n_units = 1 + ctx.choice("extra_units", max_units)
     units = _k3_model(ctx, n_units, ctx.params["per_unit"])
     reverse = ctx.flag("relationship_order_reversed")
+    if ctx.params.get("format") == "epub":
+        # EPUB images are package resources; their order IS the manifest order (weaker reading of
+        # "document order", see DESIGN): the manifest is always written in the harness's order
+        reverse = False
     flat = [im for u in units for im in u if im["present"]]
     fail_at = 0
     if ctx.params.get("faults") and flat:
